@@ -160,17 +160,17 @@ type c07Method struct {
 	Name        string   `json:"name"`
 	Recv        string   `json:"recv"`
 	File        string   `json:"file"`
-	Touches     bool     `json:"touches"`       // reads or writes .offset / .usedMap
-	LockIdx     int      `json:"lock_idx"`      // index of the statement recv.lock.Lock(), -1 if none
-	DeferUnlock bool     `json:"defer_unlock"`  // next statement is defer recv.lock.Unlock()
-	PrefixDirty bool     `json:"prefix_dirty"`  // a statement before the Lock touches the fields or calls a method of the receiver
-	ExtraUnlock int      `json:"extra_unlock"`  // Unlock calls other than the deferred one
-	HasGo       bool     `json:"has_go"`        // go statement in the body
-	RecvCalls   []string `json:"recv_calls"`    // methods called on the receiver
-	Constructs  bool     `json:"constructs"`    // composite literal of FTEIDGenerator
-	Mentions    bool     `json:"mentions"`      // names FTEIDGenerator / fteidGenerator
-	UsedMapSel  bool     `json:"used_map_sel"`  // a selector .usedMap
-	OffsetSel   bool     `json:"offset_sel"`    // a selector .offset
+	Touches     bool     `json:"touches"`      // reads or writes .offset / .usedMap
+	LockIdx     int      `json:"lock_idx"`     // index of the statement recv.lock.Lock(), -1 if none
+	DeferUnlock bool     `json:"defer_unlock"` // next statement is defer recv.lock.Unlock()
+	PrefixDirty bool     `json:"prefix_dirty"` // a statement before the Lock touches the fields or calls a method of the receiver
+	ExtraUnlock int      `json:"extra_unlock"` // Unlock calls other than the deferred one
+	HasGo       bool     `json:"has_go"`       // go statement in the body
+	RecvCalls   []string `json:"recv_calls"`   // methods called on the receiver
+	Constructs  bool     `json:"constructs"`   // composite literal of FTEIDGenerator
+	Mentions    bool     `json:"mentions"`     // names FTEIDGenerator / fteidGenerator
+	UsedMapSel  bool     `json:"used_map_sel"` // a selector .usedMap
+	OffsetSel   bool     `json:"offset_sel"`   // a selector .offset
 }
 
 func c07IsSel(e ast.Expr, name string) (ast.Expr, bool) {
@@ -367,12 +367,16 @@ type c07CPdr struct {
 }
 
 type c07Ev struct {
-	Kind string    `json:"kind"` // "est" | "del"
-	K    int       `json:"k"`
-	Aok  bool      `json:"aok"` // Node ID of the request = the associated one
-	Dok  bool      `json:"dok"` // datapath accepts
-	Pdrs []c07CPdr `json:"pdrs"`
-	Nth  int       `json:"nth"` // del: index into the association's accepted sessions (mod length)
+	Kind      string    `json:"kind"` // "est" | "del" | "mod"
+	K         int       `json:"k"`
+	Aok       bool      `json:"aok"` // Node ID of the request = the associated one
+	Dok       bool      `json:"dok"` // datapath accepts
+	Pdrs      []c07CPdr `json:"pdrs"`
+	Nth       int       `json:"nth"`        // del, mod: index into the association's accepted sessions (mod length)
+	Ch        bool      `json:"ch"`         // mod: the Create PDR's PDI carries an F-TEID with CHOOSE
+	Teid      uint32    `json:"teid"`       // mod: ... and (after it) an F-TEID with this TEID, if non-zero
+	PdrID     uint16    `json:"pdr_id"`     // mod: id of the PDR created
+	ExplFirst bool      `json:"expl_first"` // mod: the explicit F-TEID precedes the CHOOSE one
 }
 
 type c07EstIn struct {
@@ -406,8 +410,11 @@ type c07EvObs struct {
 	GenOff    uint32       `json:"gen_off"`
 	GenUsed   []uint32     `json:"gen_used"`
 	Store     []uint64     `json:"store"`
-	Stored    []c07Pdr     `json:"stored"` // pdrs of the stored session (est, accepted)
-	Seid      uint64       `json:"seid"`   // del: the local SEID addressed
+	Stored    []c07Pdr     `json:"stored"`   // pdrs of the stored session (est, accepted)
+	Seid      uint64       `json:"seid"`     // del, mod: the local SEID addressed
+	ModCh     bool         `json:"mod_ch"`   // mod: UPAllocateFteid of the PDR as stored afterwards
+	ModTeid   uint32       `json:"mod_teid"` // mod: tunnelTEID of the PDR as stored afterwards
+	ModStored bool         `json:"mod_stored"`
 	Panic     string       `json:"panic,omitempty"`
 }
 
@@ -514,6 +521,26 @@ func c07Est(in c07EstIn) (out map[string]interface{}, err error) {
 				o.Seid = 0xdead0000 + uint64(e.Nth) // no such session
 			}
 			req = message.NewSessionDeletionRequest(0, 0, o.Seid, a.seq, 0)
+		case "mod":
+			dp.answer = ie.CauseRequestAccepted
+			if len(a.seids) > 0 {
+				o.Seid = a.seids[e.Nth%len(a.seids)]
+			} else {
+				o.Seid = 0xdead0000 + uint64(e.Nth)
+			}
+			pdi := []*ie.IE{ie.NewSourceInterface(ie.SrcInterfaceAccess)}
+			if e.Teid != 0 && e.ExplFirst {
+				pdi = append(pdi, ie.NewFTEID(0x01, e.Teid, c07IP(in.Access), nil, 0))
+			}
+			if e.Ch {
+				pdi = append(pdi, ie.NewFTEID(0x04, 0, nil, nil, 0))
+			}
+			if e.Teid != 0 && !e.ExplFirst {
+				pdi = append(pdi, ie.NewFTEID(0x01, e.Teid, c07IP(in.Access), nil, 0))
+			}
+			req = message.NewSessionModificationRequest(0, 0, o.Seid, a.seq, 0,
+				ie.NewCreatePDR(ie.NewPDRID(e.PdrID), ie.NewPrecedence(255), ie.NewPDI(pdi...),
+					ie.NewOuterHeaderRemoval(0, 0), ie.NewFARID(uint32(e.PdrID))))
 		default:
 			return nil, fmt.Errorf("bad event kind %q", e.Kind)
 		}
@@ -555,6 +582,13 @@ func c07Est(in c07EstIn) (out map[string]interface{}, err error) {
 						o.OtherCr++
 					}
 				}
+			case *message.SessionModificationResponse:
+				o.HdrSeid = r.SEID()
+				if r.Cause != nil {
+					if c, e := r.Cause.Cause(); e == nil {
+						o.Cause = int(c)
+					}
+				}
 			case *message.SessionDeletionResponse:
 				o.HdrSeid = r.SEID()
 				if r.Cause != nil {
@@ -572,6 +606,15 @@ func c07Est(in c07EstIn) (out map[string]interface{}, err error) {
 			a.seids = append(a.seids, o.UpFseid)
 			if s, ok := a.pc.store.GetSession(o.UpFseid); ok {
 				o.Stored = c07Pdrs(s.pdrs)
+			}
+		}
+		if e.Kind == "mod" {
+			if s, ok := a.pc.store.GetSession(o.Seid); ok {
+				for _, p := range s.pdrs {
+					if p.pdrID == uint32(e.PdrID) {
+						o.ModStored, o.ModCh, o.ModTeid = true, p.UPAllocateFteid, p.tunnelTEID
+					}
+				}
 			}
 		}
 		obs = append(obs, o)
